@@ -23,7 +23,7 @@ for pid in [f'C{i:02d}' for i in range(1, 21)]:
                 shutil.copy(f'{src}/{f}', f'{dst}/{f}')
         notes = open(f'{src}/NOTES.md').read()
         meta = dict(property=pid, round=label,
-                    origin='written by an independent sub-agent that was given only the property text, a scratch worktree and (round 2) the one-line titles of the round-1 changes to avoid; nothing from /verif',
+                    origin='written by an independent sub-agent that was given only the property text, a scratch worktree and the one-line titles of the changes of earlier rounds for that property to avoid; nothing from /verif',
                     needs_to_manifest=notes[:1500],
                     confirmed=dict(how='bin/seedcheck.sh: scratch worktree of /repo HEAD; demo without the change, demo with the change, unedited suite with the change (private TMPDIR)',
                                    demo_clean_rc=int(m[0]), demo_patched_rc=int(m[1]), suite=m[2].strip('= ')),
